@@ -35,7 +35,7 @@ theorem c02_source_facts :
     subseq ["cache.gop.Elems", "set metaData.Timestamp", "set videoSequenceHeader.Timestamp",
             "set audioSequenceHeader.Timestamp", "q.Queue().PushN"] IpcHub.Gen.progFlvPushTo = true ∧
     subseq ["tag.IsMetadata", "set cache.metaData", "tag.IsH2645SequenceHeader", "set cache.videoSequenceHeader",
-            "tag.IsAACSequenceHeader", "set cache.audioSequenceHeader", "tag.IsH2645KeyFrame",
+            "tag.IsAACSequenceHeader", "set cache.audioSequenceHeader", "set cache.lastTimestamp", "tag.IsH2645KeyFrame",
             "cache.gop.Reset", "cache.gop.Push", "cache.gop.Len", "cache.gop.Push"] IpcHub.Gen.progFlvCachePack = true ∧
     subseq ["cs.l.Lock", "c.sendGop", "cs.Add", "cs.l.Unlock"] IpcHub.Gen.progStartConsume = true ∧
     subseq ["cache.PushTo"] IpcHub.Gen.progConsSendGop = true := by
@@ -174,8 +174,9 @@ theorem c02_decodable_h264 (it : IpcHub.Packetise.Item) (hleg : IpcHub.Packetise
 
 /-- FLV variant: whatever tags were written, a joining FLV consumer is first given the cached
     metadata, video and audio sequence headers (in that order, those that exist), every one of them
-    presented with the timestamp of the first replayed media tag (0 when the GOP part is empty) and
-    otherwise unchanged, followed by the cached GOP; the cached tags themselves are not modified
+    presented with the timestamp of the first replayed media tag — when the GOP part is empty, with
+    the stream's current time: the timestamp of the latest media tag written (0 before the first) —
+    and otherwise unchanged, followed by the cached GOP; the cached tags themselves are not modified
     (`pushTo` is a function of the cache; the model hands out re-stamped copies — the source fact
     that PushTo assigns to local copies is part of c01_source_facts / c02_source_facts). -/
 theorem c02_flv_replay (gop : Bool) (tags : List IpcHub.FlvCacheM.FTag) :
@@ -184,7 +185,9 @@ theorem c02_flv_replay (gop : Bool) (tags : List IpcHub.FlvCacheM.FTag) :
     (∀ t ∈ c.headers, t.ts = c.initTs) ∧
     c.headers.map (fun t => (t.uid, t.tagType, t.data))
       = (c.mdata.toList ++ c.vseq.toList ++ c.aseq.toList).map (fun t => (t.uid, t.tagType, t.data)) ∧
-    (c.gop = [] → c.initTs = 0) ∧ (∀ t rest, c.gop = t :: rest → c.initTs = t.ts) := by
+    (c.gop = [] → c.initTs =
+      (match (tags.filter IpcHub.FlvCacheM.isMedia).getLast? with | some t => t.ts | none => 0)) ∧
+    (∀ t rest, c.gop = t :: rest → c.initTs = t.ts) := by
   intro c
   refine ⟨rfl, ?_, ?_, ?_, ?_⟩
   · intro t ht
@@ -192,8 +195,23 @@ theorem c02_flv_replay (gop : Bool) (tags : List IpcHub.FlvCacheM.FTag) :
     obtain ⟨t', _, rfl⟩ := ht
     rfl
   · simp [IpcHub.FlvCacheM.FCache.headers, IpcHub.FlvCacheM.restamp, List.map_map, Function.comp_def]
-  · intro h; simp [IpcHub.FlvCacheM.FCache.initTs, h]
+  · intro h
+    have hl := IpcHub.FlvCacheM.last_cacheG gop true tags
+    show (IpcHub.FlvCacheM.cacheG gop true tags).initTs = _
+    have h' : (IpcHub.FlvCacheM.cacheG gop true tags).gop = [] := h
+    simp only [IpcHub.FlvCacheM.FCache.initTs, h', hl.1, if_true]
+    exact hl.2
   · intro t rest h; simp [IpcHub.FlvCacheM.FCache.initTs, h]
+
+/-- The pinned behaviour (kept as a theorem about the model with the old switch): without a cached
+    GOP the replayed headers were stamped 0 however old the stream — so that the joiner's FLV
+    writer, which takes its first tag as the time base and treats timestamps as signed 32-bit
+    numbers, saw every tag of a stream older than 2^31 ms as older than its first tag. -/
+theorem c02_flv_replay_pinned_stamps_zero (gop : Bool) (tags : List IpcHub.FlvCacheM.FTag)
+    (h : (IpcHub.FlvCacheM.cacheG gop false tags).gop = []) :
+    (IpcHub.FlvCacheM.cacheG gop false tags).initTs = 0 := by
+  have hl := IpcHub.FlvCacheM.last_cacheG gop false tags
+  simp [IpcHub.FlvCacheM.FCache.initTs, h, hl.1]
 
 /-- FLV variant of c02_cache_state: after ANY written tag sequence the FLV cache holds the most
     recent metadata tag, video sequence header and AAC sequence header (byte-level predicates of
@@ -215,47 +233,23 @@ theorem c02_flv_cache_state (gop : Bool) (tags : List IpcHub.FlvCacheM.FTag) :
 /-- The FLV joiner's timeline starts at zero — composition of the cache replay with the FLV
     writer's rebase (the writer model of C08; `cfg.sentinelInit = false` is what the regenerated
     facts of the current tree give, `c08_gen_cfg`, and `c08_joiner_timeline_zero` is this
-    theorem at that configuration).  Whenever
-    the cached GOP is non-empty, the first tag the joiner's writer is handed carries the
-    timestamp of the first replayed media tag `g0`, the writer takes it as its time base, and
-    every replayed header tag as well as `g0` itself go on the wire with timestamp 0.  (Later
-    tags go out with `ts − g0.ts`: `c08_rebase_never_wraps`.) -/
+    theorem at that configuration).  Whatever was written before the join — with or without a
+    cached GOP: when anything is replayed, the first tag the joiner's writer is handed carries
+    `initTs` (the timestamp of the first replayed media tag; without a cached GOP the stream's
+    current time, `c02_flv_replay`), the writer takes it as its time base, and every replayed
+    header tag as well as the first replayed media tag go on the wire with timestamp 0.  When
+    nothing is replayed (nothing cached yet) the first live tag is the writer's first tag and is
+    written with 0 as well (`IpcHub.FlvCacheM.first_tag_zero`).  (Later tags go out with
+    `ts − initTs`, 0 when older: `c08_rebase_never_wraps`.) -/
 theorem c02_flv_timeline_starts_at_zero (cfg : IpcHub.Flv.Cfg) (hs : cfg.sentinelInit = false)
-    (gop : Bool) (tags : List IpcHub.FlvCacheM.FTag)
-    (g0 : IpcHub.FlvCacheM.FTag) (rest : List IpcHub.FlvCacheM.FTag)
-    (hg : (IpcHub.FlvCacheM.cacheAfter gop tags).gop = g0 :: rest) :
+    (gop : Bool) (tags : List IpcHub.FlvCacheM.FTag) :
     let c := IpcHub.FlvCacheM.cacheAfter gop tags
-    let w1 : IpcHub.Flv.Writer := { delta := UInt32.ofNat g0.ts, started := true }
-    (∃ first more, c.pushTo.map IpcHub.FlvCacheM.toTag = first :: more ∧
+    let w1 : IpcHub.Flv.Writer := { delta := UInt32.ofNat c.initTs, started := true }
+    (c.pushTo ≠ [] → ∃ first more, c.pushTo.map IpcHub.FlvCacheM.toTag = first :: more ∧
         IpcHub.Flv.Writer.next cfg {} first = w1) ∧
-    (∀ t ∈ c.headers ++ [g0], IpcHub.FlvCacheM.wireTs cfg w1 (IpcHub.FlvCacheM.toTag t) = 0) := by
-  intro c w1
-  have hinit : c.initTs = g0.ts := by
-    show (IpcHub.FlvCacheM.cacheAfter gop tags).initTs = g0.ts
-    simp [IpcHub.FlvCacheM.FCache.initTs, hg]
-  have hts : ∀ t ∈ c.headers ++ [g0], (IpcHub.FlvCacheM.toTag t).timestamp = UInt32.ofNat g0.ts := by
-    intro t ht
-    simp only [List.mem_append, List.mem_singleton] at ht
-    rcases ht with ht | rfl
-    · simp only [IpcHub.FlvCacheM.FCache.headers, List.mem_map] at ht
-      obtain ⟨t', _, rfl⟩ := ht
-      simp [IpcHub.FlvCacheM.toTag, IpcHub.FlvCacheM.restamp, hinit]
-    · rfl
-  constructor
-  · -- the first tag handed to the writer is a header or g0: both carry g0's timestamp
-    have hpush : c.pushTo = c.headers ++ g0 :: rest := by
-      show (IpcHub.FlvCacheM.cacheAfter gop tags).headers ++ (IpcHub.FlvCacheM.cacheAfter gop tags).gop = _
-      rw [hg]
-    cases hh : c.headers with
-    | nil =>
-      refine ⟨IpcHub.FlvCacheM.toTag g0, rest.map IpcHub.FlvCacheM.toTag, by simp [hpush, hh], ?_⟩
-      simp [IpcHub.Flv.Writer.next, IpcHub.Flv.Writer.isFirst, hs, IpcHub.FlvCacheM.toTag, w1]
-    | cons h0 hrest =>
-      refine ⟨IpcHub.FlvCacheM.toTag h0, (hrest ++ g0 :: rest).map IpcHub.FlvCacheM.toTag, by simp [hpush, hh], ?_⟩
-      have := hts h0 (by simp [hh])
-      simp [IpcHub.Flv.Writer.next, IpcHub.Flv.Writer.isFirst, hs, this, w1]
-  · intro t ht
-    exact IpcHub.FlvCacheM.same_ts_zero _ _ _ (hts t ht)
+    (∀ t ∈ c.headers ++ c.gop.head?.toList, IpcHub.FlvCacheM.wireTs cfg w1 (IpcHub.FlvCacheM.toTag t) = 0) ∧
+    (∀ live : IpcHub.Flv.Tag, IpcHub.FlvCacheM.wireTs cfg (IpcHub.Flv.Writer.next cfg {} live) live = 0) :=
+  IpcHub.FlvCacheM.joiner_timeline cfg hs gop tags
 
 /-- non-vacuity / sanity of the cache specification on a concrete H.264 sequence -/
 example :
